@@ -418,6 +418,9 @@ func genProbesOnly(r *common.Run, only string) {
 				if (o[0] == "1") != want {
 					r.Fail("negotiator-tls-state", f[1]+"-kind="+f[2], lines, "the mechanism's negotiator sees a TLS state iff the connection reports one with a version: seen="+o[0])
 				}
+				if f[1] == "cli" && len(o) >= 4 && o[3] != f[3] {
+					r.Fail("negotiator-remote-mechanisms", "cli", lines, "the initiating side's mechanism must see exactly the mechanisms the peer advertised ("+f[3]+"), it sees "+o[3])
+				}
 			}
 		}
 	}
